@@ -27,6 +27,21 @@ AWAIT_TB = [AX[k] for k in ('A1', 'A5', 'A6', 'A7', 'A8', 'A10', 'X1', 'X2')] + 
     'rely while suspended: completion signals are never cleared or replaced, queues are never replaced, terminal results are frozen']
 
 PROPERTIES = {
+    'C12': {
+        'functions': ['EventResult.update', 'BaseEvent.event_result_update', 'BaseEvent._event_result_is_truthy', 'BaseEvent.event_results_filtered', 'EventResult.__await__.wait',
+                      'EventResult.handler_completed_signal', 'BaseEvent.event_completed_signal', 'bubus.get_handler_id', 'bubus.get_handler_name'],
+        'trusted_base': [AX[k] for k in ('A1', 'A3', 'A6', 'A9', 'A10', 'X1', 'X2')] + [
+            'A9: validates_ok(T, v) / validated(T, v) are pydantic\'s verdict and coerced value for (declared type, returned value): uninterpreted, deterministic; '
+            'model_validate for BaseModel classes, TypeAdapter(T).validate_python otherwise; a TypeAdapter that cannot be built accepts nothing',
+            'EventResult(...) constructor = pydantic model init (fields set from keywords, defaults otherwise)',
+            'include filters are pure user predicates (uninterpreted, total)',
+            'awaiting a single EventResult (EventResult.__await__): contract assumed'],
+        'not_decided': ['the accessor VIEWS: that event_results_filtered returns exactly the included results in handler order, and the six wrappers (event_result, _list, _by_handler_id, _by_handler_name, '
+                        '_flat_dict, _flat_list, raise_if_conflicts) are NOT under contract: the dict-comprehension view equalities did not discharge within budget (solver unknown) and were removed rather than '
+                        'claimed; decided for the accessors: they raise a recorded error only under raise_if_any, ValueError only under raise_if_none, never return an empty view under raise_if_none',
+                        'conformance of pydantic itself (A9) - a bounded table-driven stand-in is not included'],
+        'assumptions': [],
+    },
     'C02': {
         'functions': ['BaseEvent.__await__.wait', 'CleanShutdownQueue.put_nowait', 'CleanShutdownQueue.get_nowait', 'EventBus.dispatch', 'EventBus._get_next_event', 'EventBus.step',
                       'EventBus._start', 'EventBus.cleanup_event_history', 'EventBus._run_loop', 'EventBus.process_event'],
